@@ -1,5 +1,4 @@
-import MjProof.Props.C49
-import MjProof.Lemmas.Introspect
+import MjProof.Model.Introspect
 import MjProof.Gen.IntrospectHeaders
 /-
 C49 (table half, part: type spellings).  See Props/C49Gen.lean.  Split into several modules only so that lake
